@@ -136,6 +136,21 @@ def _mk_splines(increasing):
         env.claim_eq("pressure_evaluated_at_psi*sign", arg, q * sgn)
         tag, spl, arg = me.fpolprime(q)
         env.claim("fpolprime_is_derivative_of_f_spline", spl.y[0] == "derivative" and spl.y[1] is me.f_spl.y)
+        # chain rule: fpolprime(psi) is d/dpsi of fpol(psi) = f_spl(psi*sign), i.e. sign * f_spl'(psi*sign).  The spline and its
+        # derivative are an uninterpreted function pair (F, F'); the real methods run on a first-order jet in psi.
+        from symx.jets import Jet1
+        if env.mode == "sym":
+            Fv, Fd = z3.Function("f_spline", z3.RealSort(), z3.RealSort()), z3.Function("f_spline_prime", z3.RealSort(), z3.RealSort())
+            val = lambda u: SymReal(Fv(core.lift_real(u)))   # noqa: E731
+            der = lambda u: SymReal(Fd(core.lift_real(u)))   # noqa: E731
+        else:
+            val = lambda u: 2.0 + 0.5 * u + 0.25 * u * u     # noqa: E731
+            der = lambda u: 0.5 + 0.5 * u                    # noqa: E731
+        real_f, real_fp = me.f_spl, me.fprime_spl
+        me.f_spl = lambda u: Jet1(val(u.v), der(u.v) * u.d) if isinstance(u, Jet1) else val(u)
+        me.fprime_spl = der
+        env.claim_eq("fpolprime=d(fpol)/dpsi", me.fpolprime(q), me.fpol(Jet1(q, 1)).d)
+        me.f_spl, me.fprime_spl = real_f, real_fp
         # Bt_axis
         me.psi_axis = q
         me.o_point = Point2D(env.real("R_axis", lo=1, hi=9), 0.0)
